@@ -1913,6 +1913,604 @@ def run_rd_hydrogen(ctx, pal):
 
 
 # ---------------------------------------------------------------------------
+# kind "reuse": ONE file object written several times (differential oracle against a fresh object)
+# ---------------------------------------------------------------------------
+REUSE_HEADERS = {
+    "empty": HEADER_BASE["empty"],
+    "full": HEADER_BASE["full"],
+    "h2": dict(HEADER_BASE["empty"], mol_name="second", comments="c 2", dimensions="3D"),
+    "h3": dict(HEADER_BASE["empty"], mol_name="m3", initials="XY", time=[1999, 12, 31, 23, 59], registry_number="77"),
+}
+REUSE_CONTENTS = {
+    # id: atoms, charges (None = no annotation), bond types, version argument, header, metadata items
+    "c0": {"n": 1, "chg": None, "types": ["SINGLE"], "ver": None, "h": "empty", "meta": []},
+    "c1": {"n": 3, "chg": {1: -15, 2: 4}, "types": ["SINGLE", "DOUBLE"], "ver": None, "h": "full",
+           "meta": [[{"name": "a"}, "x"]]},
+    "c2": {"n": 2, "chg": {0: 1}, "types": ["AROMATIC"], "ver": "V3000", "h": "h2",
+           "meta": [[{"number": 1, "name": "b"}, "l1\nl2"], [{"name": "a"}, "y"]]},
+    "c3": {"n": 4, "chg": {}, "types": ["TRIPLE"], "ver": "V2000", "h": "h3", "meta": [[{"name": "z9"}, "z"]]},
+    "n999": {"n": 999, "chg": {998: -1}, "types": ["SINGLE"], "ver": None, "h": "h2", "meta": []},
+    "n1000": {"n": 1000, "chg": {999: 2}, "types": ["SINGLE"], "ver": None, "h": "empty",
+              "meta": [[{"name": "big"}, "1"]]},
+}
+REUSE_BAD = {
+    "nan": {"n": 2, "nan": True, "ver": None},
+    "v2000_1000": {"n": 1000, "ver": "V2000"},
+}
+REUSE_SMALL = ["c0", "c1", "c2", "c3"]
+REUSE_BIG = ["n999", "n1000"]
+
+
+def reuse_mol(cid, pal):
+    if cid in REUSE_BAD:
+        b = REUSE_BAD[cid]
+        m = chain_mol(b["n"], pal)
+        p = PALETTES[pal]
+        m["coord"] = [[f32(float(p["base"][c]) + (i % 97) * float(p["step"][c])) for c in range(3)]
+                      for i in range(b["n"])]
+        if b.get("nan"):
+            m["coord"][0][0] = f32("nan")
+        return m, b["ver"]
+    c = REUSE_CONTENTS[cid]
+    m = chain_mol(c["n"], pal, dict((int(k), v) for k, v in (c["chg"] or {}).items()), c["types"])
+    if c["chg"] is None:
+        m["charge"] = None
+    p = PALETTES[pal]
+    m["coord"] = [[f32(float(p["base"][k]) + (i % 97) * float(p["step"][k])) for k in range(3)] for i in range(c["n"])]
+    return m, c["ver"]
+
+
+_REUSE_ATOMS = {}
+
+
+def reuse_atoms(cid, pal):
+    k = (cid, pal)
+    if k not in _REUSE_ATOMS:
+        m, ver = reuse_mol(cid, pal)
+        _REUSE_ATOMS[k] = (m, ver, build_atoms(m))
+    return _REUSE_ATOMS[k]
+
+
+def reuse_metadata(items):
+    from biotite.structure.io import mol as molio
+
+    return molio.Metadata({molio.Metadata.Key(**k): v for k, v in items})
+
+
+def header_tuple(h):
+    return tuple((f, getattr(h, f)) for f in HEADER_FIELDS)
+
+
+def meta_list(md):
+    return [(tuple(sorted(key_tuple(k).items(), key=str)), v) for k, v in md.items()]
+
+
+def reuse_write(obj, cont, cid, mode, pal):
+    """write content cid onto obj (MOLFile or SDRecord); mode 'hs' = header(+metadata) first, 'sh' = structure first"""
+    c = REUSE_CONTENTS[cid]
+    m, ver, atoms = reuse_atoms(cid, pal)
+    kw = {} if ver is None else {"version": ver}
+
+    def head():
+        obj.header = make_header(REUSE_HEADERS[c["h"]])
+        if cont == "rec":
+            obj.metadata = reuse_metadata(c["meta"])
+
+    if mode == "hs":
+        head()
+        obj.set_structure(atoms, **kw)
+    else:
+        obj.set_structure(atoms, **kw)
+        head()
+
+
+def reuse_new(cont):
+    from biotite.structure.io import mol as molio
+
+    return molio.MOLFile() if cont == "mol" else molio.SDRecord()
+
+
+def reuse_text(obj, cont):
+    if cont == "mol":
+        buf = io.StringIO()
+        obj.write(buf)
+        return buf.getvalue()
+    return obj.serialize()
+
+
+def reuse_observe(obj, cont, text_first):
+    """every getter + the serialized text; the getters run before or after serialising"""
+    def getters():
+        o = {"structure": snapshot(obj.get_structure()), "header": header_tuple(obj.header)}
+        if cont == "rec":
+            o["metadata"] = meta_list(obj.metadata)
+        return o
+
+    if text_first:
+        t = reuse_text(obj, cont)
+        o = getters()
+    else:
+        o = getters()
+        t = reuse_text(obj, cont)
+    o["text"] = t
+    return o
+
+
+def reuse_parse(text, cont):
+    from biotite.structure.io import mol as molio
+
+    if cont == "mol":
+        return molio.MOLFile.read(io.StringIO(text))
+    return molio.SDRecord.deserialize(text)
+
+
+def eval_reuse_obj(case):
+    """MOLFile / SDRecord written len(seq) times.  -> fails"""
+    cont, seq, pal = case["cont"], case["seq"], case["pal"]
+    modes = case["modes"]
+    site = "reuse[%s]" % cont
+    try:
+        obj = reuse_new(cont)
+        reuse_write(obj, cont, seq[0], modes[0], pal)
+        if case["origin"] == "parsed":
+            obj = reuse_parse(reuse_text(obj, cont), cont)
+        last = seq[0]
+        last_mode = modes[0]
+        for step, cid in enumerate(seq[1:], 1):
+            if case["touch"]:
+                reuse_observe(obj, cont, case["text_first"])
+            if cid in REUSE_BAD:
+                before = reuse_observe(obj, cont, True)
+                m, ver, atoms = reuse_atoms(cid, pal)
+                try:
+                    obj.set_structure(atoms, **({} if ver is None else {"version": ver}))
+                except Exception:  # noqa: BLE001
+                    pass
+                else:
+                    raise Fail("not_refused", "write of %s on an object holding valid content did not raise" % cid,
+                               "an exception", None)
+                after = reuse_observe(obj, cont, True)
+                for k in before:
+                    if before[k] != after[k]:
+                        raise Fail("refusal_changed_" + k, "a refused write changed the object", str(before[k])[:300],
+                                   str(after[k])[:300])
+                continue
+            try:
+                reuse_write(obj, cont, cid, modes[step], pal)
+            except Exception as e:  # noqa: BLE001
+                raise Fail("unexpected_" + type(e).__name__, "valid content refused on a used object", "written",
+                           "%s: %s" % (type(e).__name__, str(e)[:200]))
+            last, last_mode = cid, modes[step]
+        got = reuse_observe(obj, cont, case["text_first"])
+        fresh = reuse_new(cont)
+        reuse_write(fresh, cont, last, last_mode, pal)
+        want = reuse_observe(fresh, cont, case["text_first"])
+        for k in ("text", "structure", "header", "metadata"):
+            if k in want and got[k] != want[k]:
+                raise Fail(k + "_differs_from_fresh", "object written %d times differs from a fresh object given "
+                           "only the last content (%s)" % (len(seq), k), str(want[k])[:400], str(got[k])[:400])
+        if cont == "rec" and not (obj == fresh):
+            raise Fail("eq_differs_from_fresh", "SDRecord.__eq__ with the fresh object", True, False)
+        # the fresh object itself is held against the model (both-wrong guard)
+        c = REUSE_CONTENTS[last]
+        m, ver, _ = reuse_atoms(last, pal)
+        vw = ver or ("V2000" if m["n"] < 1000 else "V3000")
+        lines = got["text"].split("\n")[:-1]
+        ctab = lines[3:lines.index("M  END", 3) + 1]
+        check_file_content(m, ctab, vw, [])
+        check_readback(m, obj.get_structure(), vw, [])
+        if header_tuple(obj.header) != header_tuple(make_header(REUSE_HEADERS[c["h"]])):
+            raise Fail("header_differs_from_model", "header after the last write", REUSE_HEADERS[c["h"]],
+                       str(obj.header))
+        if cont == "rec" and got["metadata"] != meta_list(reuse_metadata(c["meta"])):
+            raise Fail("metadata_differs_from_model", "metadata after the last write", c["meta"], got["metadata"])
+        return []
+    except Fail as f:
+        return [(site, f.mode, f.what, f.expected, f.observed)]
+
+
+def reuse_obj_cases(tier):
+    q = tier == "quick"
+    conts = ["mol", "rec"]
+    for cont in conts:
+        for origin in ("fresh", "parsed"):
+            for touch in (False, True):
+                for text_first in (True, False):
+                    pool = REUSE_SMALL + list(REUSE_BAD)[:1]
+                    for a in REUSE_SMALL:
+                        for b in pool:
+                            for modes in (["hs", "hs"], ["sh", "sh"]) if q else (["hs", "hs"], ["sh", "sh"],
+                                                                                 ["hs", "sh"], ["sh", "hs"]):
+                                yield {"kind": "reuse", "fam": "obj", "cont": cont, "origin": origin, "touch": touch,
+                                       "text_first": text_first, "seq": [a, b], "modes": modes}
+                    if not q:
+                        for a in REUSE_SMALL:
+                            for b in pool:
+                                for c in REUSE_SMALL:
+                                    yield {"kind": "reuse", "fam": "obj", "cont": cont, "origin": origin,
+                                           "touch": touch, "text_first": text_first, "seq": [a, b, c],
+                                           "modes": ["hs", "sh", "hs"]}
+        # the 999/1000 switch on a used object (both directions, small <-> big), refusals on big content
+        for origin in ("fresh", "parsed"):
+            for touch in ((True,) if q else (False, True)):
+                for a, b in [("n999", "n1000"), ("n1000", "n999"), ("c1", "n1000"), ("n1000", "c1"), ("c2", "n999"),
+                             ("n999", "c2"), ("n999", "v2000_1000"), ("n1000", "v2000_1000"), ("c1", "v2000_1000"),
+                             ("n1000", "nan")]:
+                    yield {"kind": "reuse", "fam": "obj", "cont": cont, "origin": origin, "touch": touch,
+                           "text_first": True, "seq": [a, b], "modes": ["hs", "hs"]}
+                    if not q and b in REUSE_CONTENTS:
+                        yield {"kind": "reuse", "fam": "obj", "cont": cont, "origin": origin, "touch": touch,
+                               "text_first": False, "seq": [a, b, a], "modes": ["hs", "sh", "hs"]}
+
+
+def reuse_obj_class(case):
+    last = [c for c in case["seq"] if c in REUSE_CONTENTS][-1]
+    prev = case["seq"][0] if len(case["seq"]) == 2 else case["seq"][-2]
+    feats = []
+    if any(c in REUSE_BAD for c in case["seq"][1:]):
+        feats.append("refused_" + "+".join(c for c in case["seq"][1:] if c in REUSE_BAD))
+    if prev in REUSE_CONTENTS:
+        a, b = REUSE_CONTENTS[prev], REUSE_CONTENTS[last]
+        feats.append("atoms_" + ("more" if b["n"] > a["n"] else "fewer" if b["n"] < a["n"] else "same"))
+    feats.append(case["origin"])
+    return "+".join(feats)
+
+
+# ---- SDFile: records put / replaced / deleted / re-inserted on ONE file object -------------------------
+SDF_NAMES = ["A", "B"]
+SDF_CIDS = ["c0", "c1", "c2"]
+SDF_INIT = [["A", "c1"], ["B", "c2"]]
+
+
+def sdf_ops():
+    ops = [["put", nm, c] for nm in SDF_NAMES for c in SDF_CIDS]
+    ops += [["del", nm] for nm in SDF_NAMES]
+    ops += [["setstruct", nm, c] for nm in SDF_NAMES for c in ("c0", "c2")]
+    ops += [["setstruct_bad", nm] for nm in SDF_NAMES + ["C"]]
+    return ops
+
+
+def sdf_model_apply(model, op):
+    """model: list of [name, {'h':..., 'meta':..., 'mol': cid}] -> (new model, refused?)"""
+    names = [r[0] for r in model]
+    k, nm = op[0], op[1]
+    new = [[r[0], dict(r[1])] for r in model]
+    if k == "put":
+        c = REUSE_CONTENTS[op[2]]
+        val = {"h": dict(REUSE_HEADERS[c["h"]], mol_name=nm), "meta": c["meta"], "mol": op[2]}
+        if nm in names:
+            new[names.index(nm)][1] = val
+        else:
+            new.append([nm, val])
+        return new, False
+    if k == "del":
+        if nm not in names:
+            return new, True
+        del new[names.index(nm)]
+        return new, False
+    if k == "setstruct":
+        if nm in names:
+            new[names.index(nm)][1]["mol"] = op[2]
+        else:
+            new.append([nm, {"h": dict(HEADER_BASE["empty"], mol_name=nm), "meta": [], "mol": op[2]}])
+        return new, False
+    if k == "setstruct_bad":
+        return new, True
+    raise ValueError(op)
+
+
+def sdf_put_record(f, nm, val, pal):
+    from biotite.structure.io import mol as molio
+
+    m, ver, atoms = reuse_atoms(val["mol"], pal)
+    r = molio.SDRecord(header=make_header(val["h"]), metadata=reuse_metadata(val["meta"]))
+    r.set_structure(atoms, **({} if ver is None else {"version": ver}))
+    f[nm] = r
+
+
+def sdf_real_apply(f, op, pal):
+    from biotite.structure.io import mol as molio
+
+    k, nm = op[0], op[1]
+    if k == "put":
+        c = REUSE_CONTENTS[op[2]]
+        sdf_put_record(f, nm, {"h": REUSE_HEADERS[c["h"]], "meta": c["meta"], "mol": op[2]}, pal)
+    elif k == "del":
+        del f[nm]
+    elif k == "setstruct":
+        m, ver, atoms = reuse_atoms(op[2], pal)
+        molio.set_structure(f, atoms, record_name=nm, **({} if ver is None else {"version": ver}))
+    elif k == "setstruct_bad":
+        m, ver, atoms = reuse_atoms("nan", pal)
+        molio.set_structure(f, atoms, record_name=nm)
+
+
+def sdf_observe(f, text_first):
+    def getters():
+        o = {"names": list(f.keys()), "len": len(f)}
+        for nm in list(f.keys()):
+            try:
+                rec = f[nm]
+                o["rec:" + nm] = (header_tuple(rec.header), meta_list(rec.metadata), snapshot(rec.get_structure()))
+            except Exception as e:  # noqa: BLE001
+                o["rec:" + nm] = ("exception", type(e).__name__)
+        o["contains"] = [nm in f for nm in SDF_NAMES + ["C"]]
+        return o
+
+    if text_first:
+        t = f.serialize()
+        o = getters()
+    else:
+        o = getters()
+        t = f.serialize()
+    o["text"] = t
+    return o
+
+
+def sdf_fresh(model, pal):
+    from biotite.structure.io import mol as molio
+
+    f = molio.SDFile()
+    for nm, val in model:
+        sdf_put_record(f, nm, val, pal)
+    return f
+
+
+def sdf_op_label(model, op):
+    names = [r[0] for r in model]
+    return "%s_%s" % (op[0], "present" if op[1] in names else "absent")
+
+
+def eval_reuse_sdf(case):
+    from biotite.structure.io import mol as molio
+
+    pal = case["pal"]
+    site = "reuse[sdf]"
+    try:
+        model = []
+        f = molio.SDFile()
+        if case["origin"] == "parsed":
+            for nm, cid in SDF_INIT:
+                model, _ = sdf_model_apply(model, ["put", nm, cid])
+            f = molio.SDFile.read(io.StringIO(sdf_fresh(model, pal).serialize()))
+        for op in case["ops"]:
+            if case["touch"]:
+                sdf_observe(f, case["text_first"])
+            new_model, refused = sdf_model_apply(model, op)
+            if refused:
+                before = sdf_observe(f, True)
+                try:
+                    sdf_real_apply(f, op, pal)
+                except Exception:  # noqa: BLE001
+                    pass
+                else:
+                    raise Fail("not_refused", "%s did not raise" % sdf_op_label(model, op), "an exception", None)
+                after = sdf_observe(f, True)
+                for k in sorted(set(before) | set(after)):
+                    if before.get(k) != after.get(k):
+                        fl = Fail("refusal_changed_state", "a refused %s changed the file object (%s)"
+                                  % (sdf_op_label(model, op), k), str(before.get(k))[:300], str(after.get(k))[:300])
+                        fl.klass = sdf_op_label(model, op)
+                        raise fl
+            else:
+                try:
+                    sdf_real_apply(f, op, pal)
+                except Exception as e:  # noqa: BLE001
+                    raise Fail("unexpected_" + type(e).__name__, "%s refused" % sdf_op_label(model, op), "applied",
+                               "%s: %s" % (type(e).__name__, str(e)[:200]))
+            model = new_model
+        got = sdf_observe(f, case["text_first"])
+        fresh = sdf_fresh(model, pal)
+        want = sdf_observe(fresh, case["text_first"])
+        for k in sorted(set(got) | set(want)):
+            if got.get(k) != want.get(k):
+                raise Fail(k.split(":")[0] + "_differs_from_fresh", "file object after %d operations differs from a "
+                           "fresh file built from the final records only (%s)" % (len(case["ops"]), k),
+                           str(want.get(k))[:400], str(got.get(k))[:400])
+        if not (f == fresh):
+            raise Fail("eq_differs_from_fresh", "SDFile.__eq__ with the fresh file", True, False)
+        # model guard + the text read again
+        if got["names"] != [r[0] for r in model]:
+            raise Fail("names_differ_from_model", "record names and order", [r[0] for r in model], got["names"])
+        g = molio.SDFile.read(io.StringIO(got["text"])) if got["text"] else molio.SDFile()
+        if list(g.keys()) != got["names"]:
+            raise Fail("names_reread", "record names after reading the text again", got["names"], list(g.keys()))
+        for nm, val in model:
+            m, ver, _ = reuse_atoms(val["mol"], pal)
+            check_readback(m, g[nm].get_structure(), None, [])
+            check_readback(m, f[nm].get_structure(), None, [])
+            if header_tuple(f[nm].header) != header_tuple(make_header(val["h"])):
+                raise Fail("header_differs_from_model", "record header", val["h"], str(f[nm].header))
+            if meta_list(f[nm].metadata) != meta_list(reuse_metadata(val["meta"])):
+                raise Fail("metadata_differs_from_model", "record metadata", val["meta"], meta_list(f[nm].metadata))
+        return []
+    except Fail as fl:
+        return [(site, fl.mode, fl.what, fl.expected, fl.observed, getattr(fl, "klass", None))]
+
+
+def reuse_sdf_cases(tier):
+    ops = sdf_ops()
+    depth = 2 if tier == "quick" else 3
+    for origin in ("empty", "parsed"):
+        for touch in (False, True):
+            for d in range(1, depth + 1):
+                for seq in itertools.product(ops, repeat=d):
+                    # text-first / getters-first alternate deterministically with the sequence (both on every pair)
+                    for text_first in ((True, False) if d <= 2 else (True,)):
+                        yield {"kind": "reuse", "fam": "sdf", "origin": origin, "touch": touch,
+                               "text_first": text_first, "ops": [list(o) for o in seq]}
+
+
+def reuse_sdf_class(case):
+    model = []
+    if case["origin"] == "parsed":
+        for nm, cid in SDF_INIT:
+            model, _ = sdf_model_apply(model, ["put", nm, cid])
+    labs = []
+    for op in case["ops"]:
+        labs.append(sdf_op_label(model, op))
+        model, _ = sdf_model_apply(model, op)
+    return ">".join(labs) + "+" + case["origin"]
+
+
+def reduce_sdf(case):
+    """smallest failing order-preserving sub-sequence of operations"""
+    ops = case["ops"]
+    for d in range(1, len(ops)):
+        for idx in itertools.combinations(range(len(ops)), d):
+            sc = dict(case, ops=[ops[i] for i in idx])
+            fl = eval_reuse_sdf(sc)
+            if fl:
+                return sc, fl
+    return case, None
+
+
+# ---- RDKit bridge called repeatedly on the same Mol / the same stack -------------------------------------
+REUSE_RD = {
+    "chain": {"n": 3, "bonds": {(0, 1): "SINGLE", (1, 2): "DOUBLE"}, "elem": None, "chg": {1: 1, 2: -1}},
+    "ring6": {"n": 6, "bonds": {(0, 1): "AROMATIC_SINGLE", (1, 2): "AROMATIC_DOUBLE", (2, 3): "AROMATIC_SINGLE",
+                                (3, 4): "AROMATIC_DOUBLE", (4, 5): "AROMATIC_SINGLE", (0, 5): "AROMATIC_DOUBLE"},
+              "elem": None, "chg": {}},
+    "with_h": {"n": 3, "bonds": {(0, 1): "SINGLE", (1, 2): "SINGLE"}, "elem": {0: "H", 2: "H"}, "chg": {}},
+    "dative": {"n": 2, "bonds": {(0, 1): "COORDINATION"}, "elem": {1: "FE"}, "chg": {1: 2}},
+}
+
+
+def rd_extract(mol):
+    return {"sym": [a.GetSymbol() for a in mol.GetAtoms()], "chg": [a.GetFormalCharge() for a in mol.GetAtoms()],
+            "bonds": sorted((b.GetBeginAtomIdx(), b.GetEndAtomIdx(), str(b.GetBondType())) for b in mol.GetBonds()),
+            "ids": [c.GetId() for c in mol.GetConformers()],
+            "pos": [np.asarray(c.GetPositions()).tobytes() for c in mol.GetConformers()]}
+
+
+def stack_snapshot(s):
+    return (s.coord.tobytes(), s.element.tolist(), s.bonds.as_array().tobytes(),
+            s.charge.tolist() if "charge" in s.get_annotation_categories() else None, s.coord.shape)
+
+
+def eval_reuse_rd(case):
+    import biotite.structure as struc
+    from biotite.interface.rdkit import from_mol, to_mol
+
+    rdkit()
+    spec, depth, pal, kw = REUSE_RD[case["mol"]], case["depth"], case["pal"], case["kw"]
+    m = base_mol(spec["n"], 0, pal)
+    m["bonds"] = dict(spec["bonds"])
+    for a, e in (spec["elem"] or {}).items():
+        m["elem"][a] = e
+    for a, c in spec["chg"].items():
+        m["charge"][a] = c
+    m["ann"] = []
+    S = rd_atoms(m, depth)
+    k = max(1, depth)
+    coords = S.coord if depth else S.coord[None]
+    hkw = {} if "H" in m["elem"] else {"add_hydrogen": False}
+    site = "reuse[rdkit]"
+
+    def same(a, b, what):
+        if stack_snapshot(a) != stack_snapshot(b):
+            raise Fail(what, "repeated conversion gives a different result (%s)" % what, None, None)
+
+    try:
+        s0 = stack_snapshot(S)
+        m1 = to_mol(S, **RD_KW[kw])
+        if stack_snapshot(S) != s0:
+            raise Fail("input_mutated", "to_mol changed its input", None, None)
+        e1 = rd_extract(m1)
+        if e1["ids"] != list(range(k)):
+            raise Fail("conformer_ids", "conformer IDs of the first to_mol", list(range(k)), e1["ids"])
+        b1 = from_mol(m1, **hkw)
+        if rd_extract(m1) != e1:
+            raise Fail("mol_mutated_by_from_mol", "from_mol changed the RDKit molecule", None, None)
+        ones = [from_mol(m1, conformer_id=i, **hkw) for i in range(k)]
+        b2 = from_mol(m1, **hkw)
+        same(b1, b2, "second_from_mol_differs")
+        if "H" not in m["elem"]:
+            from_mol(m1, add_hydrogen=True)
+            if rd_extract(m1) != e1:
+                raise Fail("mol_mutated_by_add_hydrogen", "from_mol(add_hydrogen=True) changed the input molecule",
+                           None, None)
+            same(b1, from_mol(m1, **hkw), "from_mol_after_add_hydrogen_differs")
+        if b1.stack_depth() != k or b1.coord.tobytes() != np.asarray(coords, dtype=np.float32).tobytes():
+            raise Fail("model_order", "models after from_mol", "same order and coordinates", None)
+        for i in range(k):
+            if ones[i].coord.tobytes() != np.asarray(coords[i], dtype=np.float32).tobytes():
+                raise Fail("conformer_id_model", "from_mol(conformer_id=%d)" % i, "model %d" % i, None)
+        m2 = to_mol(S, **RD_KW[kw])
+        if rd_extract(m2) != e1:
+            raise Fail("second_to_mol_differs", "to_mol called twice on the same stack", e1["ids"], rd_extract(m2)["ids"])
+        m3 = to_mol(b1, **RD_KW[kw])
+        e3 = rd_extract(m3)
+        if e3["ids"] != e1["ids"] or e3["pos"] != e1["pos"] or e3["sym"] != e1["sym"] or e3["chg"] != e1["chg"]:
+            raise Fail("to_mol_of_round_trip_differs", "to_mol(from_mol(to_mol(x))): conformer ids / model order / atoms",
+                       (e1["ids"], e1["sym"], e1["chg"]), (e3["ids"], e3["sym"], e3["chg"]))
+        b4 = from_mol(m3, **hkw)
+        if b4.coord.tobytes() != b1.coord.tobytes() or b4.element.tolist() != b1.element.tolist() \
+                or b4.charge.tolist() != b1.charge.tolist() \
+                or {(int(i), int(j)) for i, j, _ in b4.bonds.as_array()} != {(int(i), int(j)) for i, j, _ in b1.bonds.as_array()}:
+            raise Fail("second_round_trip_differs", "from_mol(to_mol(from_mol(to_mol(x))))", None, None)
+        mm = dict(m)
+        rd_check_atoms(mm, b1, np.asarray(coords, dtype=np.float32), "first round trip")
+        rd_check_bonds(m, b1, kw, "first round trip")
+        rd_check_bonds(m, b4, kw, "second round trip")
+        return []
+    except Fail as f:
+        return [(site, f.mode, f.what, f.expected, f.observed)]
+
+
+def reuse_rd_cases(tier):
+    for mol in REUSE_RD:
+        for depth in (0, 1, 2, 3):
+            for kw in RD_KW:
+                yield {"kind": "reuse", "fam": "rd", "mol": mol, "depth": depth, "kw": kw}
+
+
+# ---- driver ----------------------------------------------------------------------------------------------
+def reuse_cases(tier):
+    yield from reuse_obj_cases(tier)
+    yield from reuse_sdf_cases(tier)
+    yield from reuse_rd_cases(tier)
+
+
+def run_reuse_case(ctx, case):
+    fam = case["fam"]
+    if fam == "obj":
+        fails = eval_reuse_obj(case)
+        klass = reuse_obj_class(case)
+    elif fam == "sdf":
+        fails = eval_reuse_sdf(case)
+        if fails and len(case["ops"]) > 1:
+            sc, fl = reduce_sdf(case)
+            if fl:
+                case, fails = sc, fl
+        klass = reuse_sdf_class(case)
+    else:
+        fails = eval_reuse_rd(case)
+        klass = "%s+%s" % (case["mol"], "stack_ge2" if case["depth"] >= 2 else "single_model")
+    ctx.ev(1, 1)
+    if not fails:
+        ctx.count("accepted")
+    ctx.outcome(json.dumps(case))
+    for fl in fails:
+        site, mode, what, exp, obs = fl[:5]
+        k = fl[5] if len(fl) > 5 and fl[5] else klass
+        ctx.violation("%s|%s|%s" % (site, mode, k), what, case, exp, obs)
+
+
+def run_reuse(shard, ctx):
+    pal = ctx.seed % len(PALETTES)
+    for i, case in enumerate(reuse_cases(ctx.tier)):
+        if i % shard["of"] != shard["part"]:
+            continue
+        case["pal"] = pal
+        if not ctx.journal(json.dumps(case)):
+            continue
+        run_reuse_case(ctx, case)
+        if i % 397 == 0:
+            ctx.sample(case)
+
+
+# ---------------------------------------------------------------------------
 # module contract
 # ---------------------------------------------------------------------------
 def bounds(tier):
@@ -1953,6 +2551,8 @@ def shards(tier, seed):
     out += [{"kind": "records", "part": p, "of": 4} for p in range(4)]
     k = 32 if q else 96
     out += [{"kind": "rd", "part": p, "of": k} for p in range(k)]
+    k = 4 if q else 16
+    out += [{"kind": "reuse", "part": p, "of": k} for p in range(k)]
     big = [s for s in out if s["kind"] == "big" and s["case"]["n"] >= 900]
     rest = [s for s in out if s not in big]
     r = seed % max(1, len(rest))
@@ -1963,7 +2563,7 @@ def run_shard(shard, ctx):
     warnings.simplefilter("ignore")
     k = shard["kind"]
     {"mol": run_mol, "chg": run_chg, "big": run_big, "header": run_header, "meta": run_meta,
-     "records": run_records, "rd": run_rd}[k](shard, ctx)
+     "records": run_records, "rd": run_rd, "reuse": run_reuse}[k](shard, ctx)
 
 
 def crash_class(case):
@@ -2005,5 +2605,7 @@ def replay(case, ctx):
         run_rd_case(ctx, case)
     elif k == "rd_h":
         run_rd_hydrogen(ctx, pal)
+    elif k == "reuse":
+        run_reuse_case(ctx, case)
     else:
         raise ValueError(case)
